@@ -38,7 +38,7 @@ pub fn impl_ebml_specification(original: &mut ItemEnum) -> Result<TokenStream> {
 
     let map: HashMap<_, _> = input.variants.iter().map(|var|(&var.ident, var)).collect();
     for origin in &input.variants {
-        if !matches!(origin.data_type_attr.0, TagDataType::Master) && origin.path_attr.is_some() {
+        if origin.path_attr.is_some() {
             validate_path(origin, &map)?;
         }
     }
@@ -68,6 +68,12 @@ fn validate_path(origin: &crate::ast::Variant, variants_map: &HashMap<&Ident, &c
             let parent = *variants_map.get(parent).unwrap();
             if parent.data_type_attr.0 != Master {
                 return Err(Error::new_spanned(parent.original, "Parents must be of Master type"))
+            }
+
+            // The parent has to show up in this path right after the parent's own path
+            let parent_path_len = parent.path_attr.as_ref().map(|(parent_path, _)| parent_path.parts.len()).unwrap_or(0);
+            if path_parts.len() <= parent_path_len || path_parts[parent_path_len] != PathPart::Ident(parent.ident.clone()) {
+                return Err(Error::new_spanned(origin.original, format!("Path did not align with parent [{}] path.", parent.ident)));
             }
 
             if let Some((parent_path, _)) = parent.path_attr.as_ref() {
